@@ -1,8 +1,10 @@
 package pcache
 
 import (
+	"encoding/json"
 	"fmt"
 	"os"
+	"path/filepath"
 	"strconv"
 	"testing"
 	"time"
@@ -53,7 +55,44 @@ var genWorkload = rapid.Custom(func(t *rapid.T) Workload {
 	return w
 })
 
-func init() { vk.Register("C09", "conc", runConcReplay) }
+func init() {
+	vk.Register("C09", "conc", runConcReplay)
+	vk.Register("C09", "bigclear", runBigClear)
+}
+
+// TestC09BigClear: one Clear of a large cache against concurrent readers.
+func TestC09BigClear(t *testing.T) {
+	h := vk.Start(t, "C09", "bigclear")
+	n := h.Pick(60, 1500)
+	rng := h.RNG("bigclear")
+	tl := vk.NewTally()
+	for i := 0; i < n && !h.Failed(); i++ {
+		c := BigClearCase{
+			N:       []int{7, 33, 64, 65, 100, 129, 200, 300, 513}[rng.Intn(9)],
+			Readers: 1 + rng.Intn(3),
+			Procs:   []int{2, 4, 16}[rng.Intn(3)],
+			Spin:    []int{0, 50, 500, 3000}[rng.Intn(4)],
+		}
+		b, _ := json.Marshal(c)
+		rf, _ := json.MarshalIndent(vk.ReplayFile{Property: "C09", Leg: "bigclear", Message: "workload that was executing when the race detector stopped the process", Case: b}, "", " ")
+		os.WriteFile(filepath.Join(h.OutDir, "current.json"), rf, 0o644)
+		msg, overlapped := executeBigClear(c)
+		if msg != "" {
+			p := h.Fail(c, msg)
+			t.Fatalf("VK-VIOLATION property=C09 leg=bigclear replay=%s\n%s", p, msg)
+		}
+		tl.Evals++
+		if overlapped {
+			tl.Classes["a_reader_saw_both_states(overlap)"]++
+		}
+		tl.Classes[fmt.Sprintf("entries=%d", c.N)]++
+		if i%17 == 3 {
+			h.Sample(c, overlapped)
+		}
+	}
+	tl.NT = tl.Classes["a_reader_saw_both_states(overlap)"]
+	h.MergeTally(tl)
+}
 
 // TestC09Conc draws workloads deterministically (rapid generator + Example
 // seed), executes each several times in both modes and decides every recorded
